@@ -451,6 +451,7 @@ type Contract struct {
 	Params   []string // optional explicit parameter names (receiver first)
 	Props    []string
 	Requires []*Clause
+	Assumes  []*Clause // "assumes label: e": assumed at entry of the body, NOT an obligation of callers; listed as an unchecked assumption
 	Ensures  []*Clause
 	Modifies []*Clause
 	Invs     []*Clause
@@ -537,7 +538,7 @@ type Macro struct {
 }
 
 var clauseKw = map[string]bool{"requires": true, "ensures": true, "modifies": true, "loop": true, "panics_if": true,
-	"property": true, "option": true, "site": true, "rely": true, "represents": true, "establishes": true, "trusted": true, "pure": true, "inline": true}
+	"property": true, "option": true, "site": true, "rely": true, "represents": true, "establishes": true, "trusted": true, "pure": true, "inline": true, "assumes": true}
 
 // parseSpecFile parses the //@ lines of a contract file.
 func parseSpecFile(path, text, pkg string, trusted bool) (*SpecFile, error) {
@@ -639,7 +640,7 @@ func parseSpecFile(path, text, pkg string, trusted bool) (*SpecFile, error) {
 			if cur != nil {
 				cur.Inline = true
 			}
-		case "requires", "ensures", "panics_if", "represents", "establishes":
+		case "requires", "assumes", "ensures", "panics_if", "represents", "establishes":
 			if cur == nil {
 				return nil, fmt.Errorf("%s: clause outside func", loc)
 			}
@@ -652,6 +653,8 @@ func parseSpecFile(path, text, pkg string, trusted bool) (*SpecFile, error) {
 			switch kw {
 			case "requires":
 				cur.Requires = append(cur.Requires, c)
+			case "assumes":
+				cur.Assumes = append(cur.Assumes, c)
 			case "ensures":
 				cur.Ensures = append(cur.Ensures, c)
 			case "panics_if":
